@@ -169,6 +169,13 @@ def instrumenter_siblings(F, pairs=(("ModuleIterator", "ComponentIterator"), ("M
     r = RuleResult("R-SIBLING(instrumenter)",
                    "ModuleIterator, ComponentIterator and FunctionModifier implement Instrumenter/Inject/InjectAt/AddLocal with the same effect summary on the function object (field writes and calls, after looking through LocalFunction's adapter methods)")
     S = Summ(F)
+    import json
+    import os
+    from vlib.report import VERIF
+    try:
+        reviewed = json.load(open(os.path.join(VERIF, "tables", "sibling_reviewed.json")))["rows"]
+    except FileNotFoundError:
+        reviewed = []
     table = {}
     for sib, adt in SIBLINGS.items():
         for fn in F.find_fns(self_adt=adt.split("::")[-1]):
@@ -185,6 +192,15 @@ def instrumenter_siblings(F, pairs=(("ModuleIterator", "ComponentIterator"), ("M
                 n += 1
                 fa, ea = impls[a]
                 fb, eb = impls[b]
+                # reviewed, intended differences (exact effect tuples only)
+                for row in reviewed:
+                    if row["method"] == m and row["pair"] == [a, b]:
+                        eff = tuple(row["effect"])
+                        side = row["only_in"]
+                        if side == a and eff in ea and eff not in eb:
+                            ea = ea - {eff}
+                        if side == b and eff in eb and eff not in ea:
+                            eb = eb - {eff}
                 ok = ea == eb
                 r.analysed.append("%s: %s vs %s" % (m, a, b))
                 r.ob(ok, {"method": m, a: sorted(map(list, ea))[:4], b: sorted(map(list, eb))[:4]})
